@@ -534,6 +534,18 @@ fn run(r: &mut Report, sc: &Scenario) {
         }
     }
 
+    if std::env::args().any(|a| a == "--dump") {
+        eprintln!("scenario {}", sj);
+        eprintln!("flush call {} return {} -> {}", flush_call, flush_ret, flushed);
+        for rec in &records {
+            eprintln!("  {} vids={:?}", rec.brief(), vidsets.get(&rec.idx).map(|s| s.iter().map(|v| v % 10_000).collect::<Vec<_>>()));
+        }
+        eprintln!("  conn_failed stamps {:?} barriers {:?}", polled.conn_failed, polled.barriers);
+        for c in col.conns() {
+            eprintln!("  conn {:?}", c);
+        }
+    }
+
     // ---- evidence about what the scenario actually exercised ----
     let consumed: usize = Signal::ALL.iter().map(|s| col.consumed_faults(*s)).sum();
     let mut multi = false;
@@ -613,7 +625,13 @@ fn run(r: &mut Report, sc: &Scenario) {
             .max()
             .unwrap_or(0);
         let mut blocked = None;
-        if dead_stamps.len() >= DEAD_K {
+        // a healthy signal that ran out of its own retry budget (spontaneous failures) stops trying:
+        // silence is then no sign of being blocked
+        let healthy_gave_up = live.iter().any(|s| records.iter().filter(|r| r.endpoint == *s && !r.acked()).count() > 9);
+        if healthy_gave_up {
+            r.observe("outage-scenarios-not-judged-healthy-signal-exhausted-retries", 1);
+        }
+        if dead_stamps.len() >= DEAD_K && !healthy_gave_up {
             for w in dead_stamps.windows(DEAD_K) {
                 let (a, b) = (w[0], w[DEAD_K - 1]);
                 if b >= t_done {
@@ -641,7 +659,7 @@ fn run(r: &mut Report, sc: &Scenario) {
                 ),
                 case_json(json!({"dead_attempt_stamps": dead_stamps, "healthy_done_stamp": if t_done == u64::MAX { json!("never") } else { json!(t_done) }})),
             );
-        } else {
+        } else if !healthy_gave_up {
             r.observe("outage-scenarios-with-healthy-progress", 1);
         }
     }
